@@ -470,6 +470,14 @@ class AsyncFIXConnection:
         Args:
             connection_state: new connection state
         """
+        if (
+            connection_state > ConnectionState.DISCONNECTED_BROKEN_CONN
+            and self._connection_state <= ConnectionState.DISCONNECTED_BROKEN_CONN
+        ):
+            # Connection was closed by another task (watchdog / application) while
+            #   this one was suspended in the middle of message processing
+            self.log.debug(f"Disconnected, state {connection_state.name} ignored")
+            return
         self.log.debug(
             f"[{self._connection_role.name}] NewState: {connection_state.name}"
         )
